@@ -206,10 +206,12 @@ theorem C10_putAddrAccountIndex_counterexample :
     (bracket (chainHandling tab) op ⟨[], ()⟩ none).1.disk = [1, 2] := by
   decide
 
-/-
-After `repo-patches/fix-C10-putAddrAccountIndex.diff` the full statement holds and replaces the `_partial` one:
+/-- FULL statement (holds since /repo 277cb7d "putAddrAccountIndex reports a failed address-index write"): every
+extracted call site that leads to a database write propagates that write's error.  Regenerated from the source on
+every run; a site that ignores, only logs, converts or shadows the error makes this `decide` fail. -/
+theorem C10_generated_sites_propagate : ErrSitesGen.allPropagated = true := by decide
 
-  `theorem` C10_generated_sites_propagate : ErrSitesGen.allPropagated = true := by decide
--/
+/-- … and therefore the generic atomicity theorem applies to the generated frame table as it stands. -/
+theorem C10_generated_table_propagates : allPropagatedTab ErrSitesGen.table = true := by decide
 
 end FaultOps
